@@ -726,6 +726,9 @@ func (x *Exec) trMethod(env *Env, e EMethod) Val {
 				for _, a := range e.Args {
 					as = append(as, x.tr(env, a))
 				}
+				if sf, ok := x.P.Specs.SpecFns[e.Name]; ok {
+					return x.applySpecFn(env, sf, as)
+				}
 				return x.goFuncApp(env, e.Name, id.Name, as)
 			}
 		}
